@@ -297,6 +297,7 @@ def replay_file(prop, path):
 
 def replay_coldwarm(prop, data):
     from . import scenarios
+    os.environ['LSIM_DEPTH'] = str(data.get('depth', 1))        # the runs are regenerated from their indices: same bounds as when found
     L = load_lentil()
     scn = scenarios.get(data['scenario'], data.get('property', prop))
     # the cold execution first, in a fork taken while this process has not executed anything yet
@@ -326,6 +327,8 @@ def run_check(prop, tier, scn_name=None):
     nworkers = int(os.environ.get('VERIF_WORKERS', str(min(16, os.cpu_count() or 1))))
     nruns = int(os.environ.get('VERIF_RUNS', str(scn.quick_runs if tier == 'quick' else scn.thorough_runs)))
     timeout_s = int(os.environ.get('VERIF_CHUNK_TIMEOUT', '600'))
+    # deeper bounds in the thorough tier: histories up to twice as long (every child process inherits this)
+    os.environ['LSIM_DEPTH'] = os.environ.get('VERIF_DEPTH', '2' if tier == 'thorough' else '1')
     known, fixed = load_findings(prop)
     print('lsim property=%s scenario=%s tier=%s VERIF_SEED=%d runs=%d workers=%d lentil=%s'
           % (prop, scn.name, tier, verif_seed, nruns, nworkers, lentil_root()))
@@ -477,7 +480,7 @@ def run_check(prop, tier, scn_name=None):
         try:
             if 'coldwarm' in ent:
                 data = {'kind': 'coldwarm', 'property': prop, 'scenario': scn.name, 'verif_seed': verif_seed,
-                        'violation': first}
+                        'violation': first, 'depth': scn.depth}
                 data.update(ent['coldwarm'])
             else:
                 try:
